@@ -318,6 +318,28 @@ func TestCheck(t *testing.T) {
 		judge4(r, "mut", m)
 		prev = w
 	}
+	// committed corpus: replay + mutants
+	c4, c6 := mon.Corpus("v4"), mon.Corpus("v6")
+	for i, b := range c4 {
+		if r.Mine(i) {
+			judge4(r, "corpus", b)
+			rng := r.Rand("corpus4", i)
+			for k := 0; k < r.Pick(2, 30); k++ {
+				judge4(r, "corpus-mut", gen4.Mutate(rng, b, nil))
+			}
+		}
+	}
+	for i, b := range c6 {
+		if r.Mine(i) {
+			judge6(r, "corpus", b)
+			rng := r.Rand("corpus6", i)
+			lf := ref6.Decode(b).LenFields
+			for k := 0; k < r.Pick(2, 30); k++ {
+				judge6(r, "corpus-mut", gen6.Mutate(rng, b, lf, nil))
+			}
+		}
+	}
+	r.Set("corpus_entries", len(c4)+len(c6))
 	// DHCPv6: hand-built non-canonical encodings
 	n6 := r.Pick(60000, 4000000)
 	for i := 0; i < n6; i++ {
